@@ -14,11 +14,11 @@ CFG = dict(
         "group ids of concurrently open groups are distinct (the code draws them at random; a collision is outside the property's quantifier) and the group is not open when its first fragment arrives",
         "the fragment of position 0 arrives first (forced by the SvDrop answer: recorded finding, C02_reassemble_any_order_refuted)",
         "fewer than 5 wake-ups of the client between two successive arrivals of the group (forced by markSweepFrags: recorded finding at the protocol's own cadence, C02_reassemble_unpaced_refuted; a sender that stalls for 5 wake-ups is timed out by design)",
-        "every fragment fits into the send queue (recorded finding, C02_split_fits_queue_refuted)",
+        "every fragment fits into the send queue: guaranteed by write(false) (C02_write_refusal_exact), NOT by write(true) (recorded finding, C02_split_fits_queue_refuted)",
     ],
     level_text="Theorems over the Gallina model of Session.write/queue (sender) and receive/cluster.add/cluster.done/markSweepFrags (receiver) for ALL limits F, all payloads "
                "(polymorphic), all group ids, all histories (induction over the list of arrivals and wake-ups): the split is exact (count, positions, lengths, concatenation, "
-               "where empty fragments occur) and write queues exactly the split; every arrival order with position 0 first, interleaved with ARBITRARY other packets and with wake-ups "
+               "where empty fragments occur) and write queues exactly the split (write(false) refuses exactly when not everything fits and then queues nothing, for every queue occupancy and fragment count); every arrival order with position 0 first, interleaved with ARBITRARY other packets and with wake-ups "
                "(fewer than 5 between two fragments of the group), makes the receiver react nothing,...,nothing,deliver(original) at the group's arrivals and leaves no cluster; fewer arrivals "
                "than fragments (any strict subset) deliver nothing; after any history five wake-ups empty the table. The three hypotheses the code forces are shown necessary by vm_compute witnesses. "
                "The model is tied to /repo by running generated histories (sizes kF+d around every change of the fragment count, the band F-H-1..F+1 for every tag count, "
